@@ -88,7 +88,9 @@ namespace cnl {
         [[nodiscard]] constexpr auto operator()(Source const& from) const
         {
             return std::numeric_limits<Destination>::is_integer && std::is_floating_point<Source>::value
-                         ? static_cast<Destination>(floor(from + static_cast<Source>(.5L)))
+                         ? static_cast<Destination>(
+                                 static_cast<Destination>(floor(from))
+                                 + static_cast<Destination>((from - floor(from)) >= static_cast<Source>(.5L)))
                          : static_cast<Destination>(from);
         }
     };
